@@ -115,6 +115,13 @@ def run(ctx):
         empt = [p for p in ps if any(a[0] == "bool" and t and "is_empty(" in D.show(a[1]) and "separate(" in D.show(a[1]) and D.show(a[1]).endswith(".1)") for a, t in p.conds)]
         good = bool(empt) and all(p.kind == "ret" and re.fullmatch(r"Result::Ok\((ruma_state_res::)?separate\(.*\)\.0\)", D.show(p.ret) or "") is not None for p in empt)
         ctx.check(good, "C06.identity", "C06.identity:no-conflict", w.where(f), bad_msg=f"{[D.show(p.ret)[:100] for p in empt][:2]}")
+        # no success path that bypasses the symmetric split: a shortcut taken from a property of ONE state set (e.g. "the others agree with the
+        # first") makes the result depend on which set comes first
+        oks = [p for p in ps if p.kind == "ret" and D.show(p.ret).startswith("Result::Ok(")]
+        short = [p for p in oks if not any("separate(" in D.show_atom(a) for a, t in p.conds) and "separate(" not in D.show(p.ret)]
+        ctx.check(bool(oks) and not short, "C06.identity", "C06.identity:no-shortcut", w.where(f),
+                  bad_msg=f"resolve can return {[D.show(p.ret)[:80] for p in short][:2]} without having split ALL state sets into unconflicted/conflicted "
+                          f"(conditions: {[D.show_atom(a)[:90] for a, t in short[0].conds][:3] if short else ''}): the result depends on the order of the state sets")
     except D.Unrecognised as e:
         ctx.unrecognised("C06.identity", "C06.identity:no-conflict", w.where(f), str(e))
     from . import C07 as _C07
